@@ -19,7 +19,10 @@ from mc.flo import runner
 def family():
     from mc.flo import families as F
     for label, prog, meta in F.fam_markers():
-        yield label, prog, dict(deep=bool(meta.get("xe")))
+        if meta.get("xy"):
+            yield label, prog, dict(deep=True, alphabet=F.XY_ALPHABET, watch=("x", "y", "env.e0"), depth=5 if core.TIER == "quick" else 7)
+        else:
+            yield label, prog, dict(deep=bool(meta.get("xe")))
     for label, prog, meta in F.fam_markers_guarded():
         yield label, prog, dict(deep=True)
     for label, prog, meta in F.fam_markers_fields():
@@ -33,8 +36,8 @@ def on_prog(p, idx, label, prog, meta):
     from mc.flo import families as F
     if meta.get("deep"):
         runner.explore_and_check(p, idx, label, prog, mons=(), cmp=runner.cmp_full(fields=(0, 1, 3, 4, 5)),
-                                 alphabet=meta.get("alphabet") or F.XE_ALPHABET, back_alphabet=[None, {"x": 1}], watch=("x", "env.e0"),
-                                 depth=8, sample_every=7)
+                                 alphabet=meta.get("alphabet") or F.XE_ALPHABET, back_alphabet=[None, {"x": 1}], watch=meta.get("watch") or ("x", "env.e0"),
+                                 depth=meta.get("depth") or 8, sample_every=7)
         return
     runner.explore_and_check(p, idx, label, prog, mons=(), cmp=runner.cmp_full(fields=(0, 1, 4, 5)),
                              alphabet=F.X_ALPHABET, back_alphabet=F.X_ALPHABET, watch=("x",),
